@@ -25,9 +25,15 @@ impl Tier {
     }
 }
 
-/// Cap on the exact fingerprint sets (per run).  Above it the counts are lower
-/// bounds and the evidence says so.
-pub const FP_CAP: usize = 6_000_000;
+/// Fingerprint budget per sub-space.  A sub-space of at most this many cases
+/// has its `state` / `nontrivial` fingerprints counted exactly; a larger one is
+/// counted on a deterministic hash sample (fingerprints whose low k bits are
+/// zero, k fixed by the sub-space's cardinality), so that every reported count
+/// is a function of the space alone -- never of thread timing -- and a lower
+/// bound on the number of distinct cases.
+pub const FP_BUDGET: u64 = 1 << 17;
+/// Safety net for the merged sets (never reached with the budget above).
+pub const FP_CAP: usize = 24_000_000;
 const VIOL_KEEP: usize = 64;
 
 #[derive(Clone, Debug)]
@@ -51,6 +57,8 @@ pub struct Acc {
     pub distinct: HashSet<u64>,
     pub states_overflow: u64,
     pub distinct_overflow: u64,
+    /// sampling mask of the sub-space being walked (0 = exact)
+    pub mask: u64,
     pub hist: BTreeMap<String, u64>,
     pub hist2: std::collections::HashMap<(&'static str, &'static str), u64>,
     pub viols: Vec<Violation>,
@@ -62,18 +70,14 @@ pub struct Acc {
 impl Acc {
     #[inline]
     pub fn state(&mut self, fp: u64) {
-        if self.states.len() < FP_CAP / 16 {
+        if fp & self.mask == 0 {
             self.states.insert(fp);
-        } else if !self.states.contains(&fp) {
-            self.states_overflow += 1;
         }
     }
     #[inline]
     pub fn nontrivial(&mut self, fp: u64) {
-        if self.distinct.len() < FP_CAP / 16 {
+        if fp & self.mask == 0 {
             self.distinct.insert(fp);
-        } else if !self.distinct.contains(&fp) {
-            self.distinct_overflow += 1;
         }
     }
     #[inline]
@@ -171,6 +175,8 @@ pub struct Run {
     pub caps: Vec<String>,
     pub extra: Map<String, Value>,
     pub threads: usize,
+    /// sub-spaces whose fingerprints are hash-sampled: (name, one in N)
+    pub sampled: Vec<(String, u64)>,
     /// failures of the machinery itself (engine disagreement, ...): exit 2
     pub machinery_errors: Vec<String>,
 }
@@ -198,6 +204,7 @@ impl Run {
             caps: vec![],
             extra: Map::new(),
             threads: n_threads(),
+            sampled: vec![],
             machinery_errors: vec![],
         }
     }
@@ -231,6 +238,11 @@ impl Run {
         F: Fn(&mut Acc, u64, u64) + Sync,
     {
         let t0 = Instant::now();
+        // deterministic fingerprint sampling for large sub-spaces (see FP_BUDGET)
+        let mask: u64 = if n <= FP_BUDGET { 0 } else { (n / FP_BUDGET).next_power_of_two() - 1 };
+        if mask != 0 {
+            self.sampled.push((name.to_string(), mask + 1));
+        }
         let visited = AtomicU64::new(0);
         let threads = self.threads.min(n.max(1) as usize).max(1);
         let chunk = (n / (threads as u64 * 64)).clamp(1, 1 << 20);
@@ -241,6 +253,7 @@ impl Run {
                 s.spawn(|| {
                     crate::trap::install();
                     let mut acc = Acc::default();
+                    acc.mask = mask;
                     let mut first = u64::MAX;
                     loop {
                         let lo = next.fetch_add(chunk, Ordering::Relaxed);
@@ -477,10 +490,13 @@ pub fn finish(mut run: Run, replayer: Replayer) -> i32 {
     coverage.insert("skipped_known".into(), json!(run.acc.skipped_known));
     coverage.insert("known_findings_reproduced".into(), json!(known_lines));
     coverage.insert("outcome_histogram".into(), json!(run.acc.hist));
-    coverage.insert("fingerprint_cap".into(), json!(FP_CAP));
     coverage.insert(
-        "fingerprints_beyond_cap".into(),
-        json!({"states": run.acc.states_overflow, "distinct_nontrivial": run.acc.distinct_overflow}),
+        "fingerprint_counting".into(),
+        json!({
+            "rule": "states and distinct_nontrivial count distinct 64-bit fingerprints; a sub-space of at most 131072 cases is counted exactly, a larger one on a deterministic hash sample of one fingerprint in N (N a power of two fixed by the sub-space's cardinality), so both numbers are lower bounds that depend on the space only, not on thread count or timing",
+            "sampled_subspaces": run.sampled.iter().map(|(n, k)| json!({"name": n, "one_in": k})).collect::<Vec<_>>(),
+            "beyond_safety_cap": {"states": run.acc.states_overflow, "distinct_nontrivial": run.acc.distinct_overflow},
+        }),
     );
     coverage.insert("caps_hit".into(), json!(run.caps));
     coverage.insert("violating_cases".into(), json!(run.acc.viol_count));
